@@ -13,7 +13,8 @@ LEVEL = 'model_checking'
 BUDGET_S = {'quick': 120, 'thorough': 900}
 BOUNDS = {
     'quick': 'sequential placements of a duplicate (same level, nested in itself, in a sibling function that catches, first '
-             'occurrence failed, first occurrence cached vs rebuilt, duplicate hidden in a cached subtree that would be reused) '
+             'occurrence failed, first occurrence cached vs rebuilt, duplicate hidden in a cached subtree that would be reused - holder '
+             'a subbuild or a build_file, reused before or after the direct call) '
              'for build_file paths and for subbuild keys with symbolic integer / float arguments; histories B.M.B.B; and two '
              'threads issuing the same build_file path / subbuild key, pre-emption bound up to 3, every library system call and lock '
              'acquire a yield point, first occurrence fresh or served from the cache',
@@ -48,7 +49,11 @@ def families(tier):
     ]
 
 
-PLACEMENTS = ['same-level', 'nested-in-itself', 'sibling-catches', 'first-failed', 'hidden-in-cached-subtree', 'sb-catches-then-first']
+PLACEMENTS = ['same-level', 'nested-in-itself', 'sibling-catches', 'first-failed', 'hidden-in-cached-subtree', 'sb-catches-then-first',
+              'hidden-bf-holder-first', 'hidden-sb-holder-first', 'hidden-bf-dup-first']
+# placements whose first build runs only the holder (so that later builds reuse its cached subtree): index of the holder
+HOLDER_ONLY_FIRST = {'hidden-in-cached-subtree': 1, 'hidden-bf-holder-first': 0, 'hidden-sb-holder-first': 0, 'hidden-bf-dup-first': 1}
+H = 'o/h'
 
 
 def seq_program(eng):
@@ -66,6 +71,14 @@ def seq_program(eng):
     if pl == 'hidden-in-cached-subtree':
         # build 1 only runs SB(a)[BF(T)]; later builds build T first at the root, then call a (whose record holds T)
         return pl, [('BF', T, {'mode': m, 'catch': True, 'name': 'root-first'}, []), ('SB', 'a', {'catch': True}, [('BF', T, {'mode': 'ok'}, [])])]
+    if pl == 'hidden-bf-holder-first':
+        # the holder (a build_file whose function built T) is served from the cache, then T is asked for directly
+        return pl, [('BF', H, {'mode': 'ok', 'catch': True, 'name': 'holder'}, [('BF', T, {'mode': 'ok', 'name': 'inner'}, [])]), dup]
+    if pl == 'hidden-sb-holder-first':
+        return pl, [('SB', 'a', {'catch': True}, [('BF', T, {'mode': 'ok', 'name': 'inner'}, [])]), dup]
+    if pl == 'hidden-bf-dup-first':
+        return pl, [('BF', T, {'mode': m, 'catch': True, 'name': 'root-first'}, []),
+                    ('BF', H, {'mode': 'ok', 'catch': True, 'name': 'holder'}, [('BF', T, {'mode': 'ok', 'name': 'inner'}, [])])]
     return pl, [('SB', 'b', {}, [('BF', T, {'mode': 'ok', 'catch': True}, [])]), ('BF', T, {'mode': m, 'catch': True}, [])]
 
 
@@ -80,15 +93,16 @@ def harness(eng, fam, P):
         pl = 'subbuild-key'
     else:
         pl, body = seq_program(eng)
-    prog = Program(eng, body)
+    shared = {}
+    prog = Program(eng, body, shared)
     eng.path_info.update({'program': show(body), 'placement': pl})
     w = World(eng, ['o', 'o/d', 'o/d/g'], sandbox=getattr(eng, 'sandbox', None))
     try:
         d = Driver(eng, w)
         nb = 0
         first_prog = prog
-        if pl == 'hidden-in-cached-subtree':
-            first_prog = Program(eng, [body[1]])
+        if pl in HOLDER_ONLY_FIRST:
+            first_prog = Program(eng, [body[HOLDER_ONLY_FIRST[pl]]], shared)
             # the sids of a differ between the two programs; fine: invocations are compared per build
         caught_setup = set()
         for si, step in enumerate(P['hist']):
